@@ -31,8 +31,10 @@ def check(run, prog, tier):
     run.trusted_base = ["DFunction._add_me adds to existing data and creates them when empty"]
     run.rule("C09-G", "the matrix of bath functions and the functions themselves answer queries from their current content (no temperature, transform or spectral density kept across a later store or addition)", minimum=3)
     from . import memorule
-    memorule.check(run, prog, "C09-G", ['quantarhei.qm.corfunctions.cfmatrix.CorrelationFunctionMatrix', 'quantarhei.qm.corfunctions.correlationfunctions.CorrelationFunction', 'quantarhei.qm.corfunctions.spectraldensities.SpectralDensity'],
-                   "a component at another temperature stored later is then not refused, or sums no longer equal the sum of components")
+    memorule.check(run, prog, "C09-G", ['quantarhei.qm.corfunctions.cfmatrix.CorrelationFunctionMatrix', 'quantarhei.qm.corfunctions.correlationfunctions.CorrelationFunction', 'quantarhei.qm.corfunctions.spectraldensities.SpectralDensity', 'quantarhei.core.dfunction.DFunction'],
+                   "a component at another temperature stored later is then not refused, or sums no longer equal the sum of components",
+                   subclasses={"CorrelationFunction", "SpectralDensity", "FTCorrelationFunction", "EvenFTCorrelationFunction",
+                               "OddFTCorrelationFunction", "LineshapeFunction"})
     run.rule("C09-A", "per-component dispatch depends on the current component (no leaked loop variables)", minimum=8)
     run.rule("C09-B", "additivity bookkeeping of add_to_data/add_to_data2/__add__", minimum=14)
     run.rule("C09-C", "component builders accumulate and register their temperature", minimum=12)
@@ -52,6 +54,46 @@ def check(run, prog, tier):
     run.rule("C09-H", "the recorded components belong to the object: constructors keep their own parameter containers, "
                       "and methods that answer a question (get_*, copy, +) do not write into the stored dictionaries", minimum=20)
     rule_H(run, prog)
+    run.rule("C09-I", "the correlation function and the spectral density answer the same question in the same units: a public "
+                      "method both define returns a converted energy in both or in neither", minimum=2)
+    rule_I(run, prog)
+
+
+def rule_I(run, prog):
+    """'The reorganisation energy recovered from the data equals the declared one' is read off two methods of each class
+    (get_reorganization_energy, measure_reorganization_energy), and the two classes describe the same bath.  For every
+    public method that CorrelationFunction and SpectralDensity both define: if one of them returns its value through
+    convert_energy_2_current_u, the other does too - otherwise the same question is answered in the current units by one
+    and in internal units by the other, and under energy_units the measured value is off by the conversion factor."""
+    rid = "C09-I"
+    A = prog.cls(CF + "CorrelationFunction")
+    B = prog.cls(SD + "SpectralDensity")
+
+    def conv(fn):
+        out = []
+        for n in walk_no_nested(fn.node):
+            if isinstance(n, ast.Return) and n.value is not None:
+                out.append(any(isinstance(x, ast.Call) and (call_name(x) or "").endswith("2_current_u") for x in ast.walk(n.value)))
+        return out
+    n = 0
+    for nme in sorted(set(A.methods) & set(B.methods)):
+        if nme.startswith("_"):
+            continue
+        a, b = conv(A.methods[nme]), conv(B.methods[nme])
+        if not (any(a) or any(b)):
+            continue
+        n += 1
+        prog.consulted.add(A.methods[nme].relpath)
+        prog.consulted.add(B.methods[nme].relpath)
+        ok = bool(a) and bool(b) and all(a) == all(b) and any(a) == any(b)
+        lag = B.methods[nme] if all(a) and not all(b) else A.methods[nme]
+        run.obligation(rid, lag.short, ok, key="same-units:" + nme,
+                       message="%s returns its value %s while the sibling class converts it to the current units: inside "
+                               "energy_units the two classes answer %s() in different units" % (
+                                   lag.short, "in internal units", nme), loc=lag.loc(lag.node),
+                       sample={"method": nme, "CorrelationFunction_converts": a, "SpectralDensity_converts": b})
+    if n < 2:
+        raise AnalysisError("only %d shared energy accessors found (2 confirmed)" % n)
 
 
 def rule_H(run, prog):
@@ -363,12 +405,15 @@ def rule_B(run, prog):
                            message="%s raises (%s) after it has already changed self (%s): a refused addition leaves "
                                    "the left operand modified" % (mname, late[0][0] if late else "", late[0][1] if late else ""),
                            loc=f.loc(late[0][2]) if late else f.loc())
-            if cname == "CorrelationFunction":
-                tchk = [n for n in walk_no_nested(f.node) if isinstance(n, ast.If)
-                        and norm(n.test) == "self.temperature != %s.temperature" % o
-                        and any(isinstance(x, ast.Raise) for x in n.body)]
-                run.obligation(rid, "%s.%s" % (cname, mname), len(tchk) == 1, key="temperature",
-                               message="components at different temperatures must be refused", loc=f.loc())
+            # 'components at different temperatures are refused' - for sums of correlation functions and of spectral
+            # densities alike: a refusal whose test compares the temperatures of the two operands
+            tchk = [n for n in walk_no_nested(f.node) if isinstance(n, ast.If)
+                    and "self.temperature" in norm(n.test) and ("%s.temperature" % o) in norm(n.test)
+                    and any(isinstance(x, ast.Raise) for x in n.body)]
+            run.obligation(rid, "%s.%s" % (cname, mname), len(tchk) == 1, key="temperature",
+                           message="%s.%s adds a component without comparing the temperatures of the two operands: a sum of "
+                                   "components declared at different temperatures is accepted (and carries the temperature of "
+                                   "one of them)" % (cname, mname), loc=f.loc())
         # rebuilds from stored (internal-unit) parameters happen under internal units
         for mname in ("__add__", "add_to_data2"):
             f = cls.methods[mname]
